@@ -215,6 +215,10 @@ pub fn run_full(db: &Db, q: &str, describe: bool) -> Result<Run, String> {
                     tokens: c.tokens.iter().map(|t| t.to_string()).collect(),
                     source: c.source,
                 },
+                // a description of a kind this harness does not know (the enum may grow): kept as an entry that
+                // is no looked-up phrase, so the checks that demand "exactly the phrases used" see it
+                #[allow(unreachable_patterns)]
+                _ => Desc { phrase: "<a description that is not a looked-up constant>".to_string(), description: String::new(), value: big(0), unit: Mirror::new(), tokens: vec![], source: None },
             })
             .collect();
         Run { results, descs, desc_marks: marks }
@@ -232,7 +236,15 @@ pub fn first_result_descriptions(db: &Db, q: &str) -> Result<Option<(bool, Vec<S
             let first = it.next()?;
             first.is_ok()
         };
-        Some((ok, descs.into_iter().map(|d| match d { Description::Constant(p, _) => p.to_string() }).collect()))
+        Some((ok, descs
+                .into_iter()
+                .map(|d| match d {
+                    Description::Constant(p, _) => p.to_string(),
+                    #[allow(unreachable_patterns)]
+                    _ => "<a description that is not a looked-up constant>".to_string(),
+                })
+                .collect(),
+        ))
     })
 }
 
